@@ -82,7 +82,7 @@ CallNext ==
             THEN \* increment_record(), then search()
                  LET a0 == p1 + 1 IN
                  IF a0 > Len(buf) THEN /\ ret' = [kind |-> "panic"] /\ pc' = "ret" /\ UNCHANGED <<x, src, buf, cap, st, inc, p0, p1, sq, sp, ql, pline, pbyte>>
-                 ELSE /\ AfterSearch(buf, a0, pline + 4, pbyte + (p1 + 1 - p0), Search(buf, 0, a0, 0, 0, 0)) /\ UNCHANGED <<x, src, cap>>
+                 ELSE /\ AfterSearch(buf, a0, pline + 4, pbyte + (p1 + 1 - p0), Search(buf, 0, a0, sq, sp, ql)) /\ UNCHANGED <<x, src, cap>>
             ELSE /\ pc' = "resume" /\ UNCHANGED <<x, src, buf, cap, st, inc, p0, p1, sq, sp, ql, pline, pbyte, ret>>
   /\ UNCHANGED <<delivered, phase, growok>>
 
